@@ -1,7 +1,8 @@
 import Sml.Model.Decode
 /-
   Decoder front-ends:
-  * operation histories on `Decoder<B>` (push_byte / finalize / reset),
+  * operation histories on `Decoder<B>` (push_byte / finalize / reset, and replacing the decoder
+    by `Decoder::new()` / `Decoder::from_buf(buf)`),
   * `decode` (decode.rs:466-480),
   * `DecodeIterator` / `decode_streaming` (decode.rs:483-523),
   * `DecoderReader` over a byte source with faults (decoder_reader.rs:66-141, util.rs:165-378).
@@ -14,18 +15,28 @@ inductive Op where
   | push (b : UInt8)
   | fin
   | reset
+  /-- `Decoder::new()`: the decoder is replaced by a new one over a buffer of the same type
+  (same capacity) -/
+  | new
+  /-- `Decoder::from_buf(buf)`: the decoder is replaced by a new one over a caller-supplied buffer
+  of the same type that already holds the bytes `stale` (oldest first) -/
+  | fromBuf (stale : List UInt8)
   deriving Repr, DecidableEq
 
 inductive OpOut where
   | out (o : Out)
   | fin (e : Option DecErr)
   | reset (n : Nat)
+  | new
+  | fromBuf
   deriving Repr, DecidableEq
 
 def Dec.step (d : Dec) : Op → Dec × OpOut
   | .push b => let (d', o) := d.push b; (d', .out o)
   | .fin => let (d', e) := d.finalize; (d', .fin e)
   | .reset => let (d', n) := d.reset; (d', .reset n)
+  | .new => (Dec.fresh d.buf.cap, .new)
+  | .fromBuf stale => (Dec.fromBuf { cap := d.buf.cap, rdata := stale.reverse }, .fromBuf)
 
 def Dec.run (d : Dec) : List Op → Dec × List OpOut
   | [] => (d, [])
@@ -111,12 +122,18 @@ end DecIter
 
 /-! ### byte sources -/
 
-/-- what the underlying source does on successive read attempts; after the list: end of input -/
+/-- what the underlying source does on successive read attempts; after the list: end of input
+(reported again by every later attempt).
+`eof` is a *mid-stream* end of input: this read attempt reports end of input (for
+`IoByteSource`, `read_exact` sees `Ok(0)` or `Err(UnexpectedEof)`, util.rs:217-242: an error of
+kind `ErrKind::Eof`), later attempts go on with the following events (a file that is being
+appended to, a socket or pipe that delivers more later, ...). -/
 inductive Ev where
   | byte (b : UInt8)
   | wouldBlock
   | interrupted
   | other
+  | eof
   deriving Repr, DecidableEq
 
 /-- which `ByteSource` wraps the events -/
@@ -178,6 +195,10 @@ def readLoop (kind : SrcKind) (d : Dec) : List Ev → Rdr × RItem
     | .io => readLoop kind d evs          -- `read_exact` retries on ErrorKind::Interrupted
     | _ => onIoErr kind d evs .other
   | .other :: evs => onIoErr kind d evs .other
+  | .eof :: evs =>
+    match kind with
+    | .eh => onIoErr kind d evs .other     -- embedded-hal has no end of input: any error is `Other`
+    | _ => onIoErr kind d evs .eof         -- (`.mem` sources never report it before their end)
 
 def read (r : Rdr) : Rdr × RItem := readLoop r.kind r.dec r.evs
 
